@@ -7,6 +7,7 @@ import (
 	"errors"
 	"fmt"
 	"os"
+	"runtime"
 	"sort"
 	"strings"
 	"sync"
@@ -47,9 +48,10 @@ func vErrStr(err error) string {
 }
 
 type vQOp struct {
-	kind string // offer cancel read done shutdown
-	a    int
-	b    int64
+	kind  string // offer cancel read done shutdown burst
+	a     int
+	b     int64
+	burst []vQBurst
 }
 
 type vQProd struct {
@@ -63,9 +65,18 @@ type vQProd struct {
 }
 
 type vQCons struct {
-	started bool
-	blocked bool
-	last    string
+	started   bool
+	blocked   bool
+	last      string
+	parkAt    int  // order in which the slots issued their Read
+	gotAt     int  // order in which Reads returned an item
+	fresh     bool // got an item since the previous snapshot
+	wasParked bool // was blocked at the previous snapshot
+}
+
+type vQBurst struct {
+	p  int
+	el int64
 }
 
 // vQRun is one memory queue plus the goroutines the script has started so far.
@@ -83,6 +94,8 @@ type vQRun struct {
 	dones    map[int]Done
 	handed   []int // handed, OnDone not called yet
 	pendDone int
+	seq      int
+	gotSeq   int
 	seen     map[int]bool // ids seen in the list or handed: accepted
 	spaceBlk bool         // some producer was blocked waiting for space at a quiescent point
 	shut     bool
@@ -131,6 +144,30 @@ func (r *vQRun) snapshot() {
 		}
 		ps = append(ps, fmt.Sprintf("%d:%s", p, st))
 	}
+	// Consumer slots are anonymous: when several parked slots were served in one step (burst), which slot got which
+	// request depends on the runtime's run-queue order. Canonical form: the slot parked first holds the request popped first.
+	var served []*vQCons
+	for _, c := range ck {
+		if x := r.cons[c]; x.fresh && x.wasParked && !x.blocked && strings.HasPrefix(x.last, "i") {
+			served = append(served, x)
+		}
+	}
+	if len(served) > 1 {
+		byPark := append([]*vQCons(nil), served...)
+		sort.Slice(byPark, func(i, j int) bool { return byPark[i].parkAt < byPark[j].parkAt })
+		sort.Slice(served, func(i, j int) bool { return served[i].gotAt < served[j].gotAt })
+		lasts := make([]string, len(served))
+		for i, x := range served {
+			lasts[i] = x.last
+		}
+		for i, x := range byPark {
+			x.last = lasts[i]
+		}
+	}
+	for _, c := range ck {
+		x := r.cons[c]
+		x.fresh, x.wasParked = false, x.blocked
+	}
 	for _, c := range ck {
 		x := r.cons[c]
 		st := x.last
@@ -163,6 +200,25 @@ func (r *vQRun) apply(op vQOp) {
 			x.ret, x.res = true, vErrStr(err)
 			r.mu.Unlock()
 		}()
+	case "burst":
+		// one producer goroutine, several Offers back to back (the generator makes sure all of them fit)
+		var sb strings.Builder
+		var xs []*vQProd
+		for _, b := range op.burst {
+			fmt.Fprintf(&sb, " %d %d", b.p, b.el)
+			x := r.prod(b.p)
+			x.started, x.size = true, b.el
+			xs = append(xs, x)
+		}
+		r.out.Linef("op burst%s", sb.String())
+		go func() {
+			for i, b := range op.burst {
+				err := r.offerFn(xs[i].ctx, b.p, b.el)
+				r.mu.Lock()
+				xs[i].ret, xs[i].res = true, vErrStr(err)
+				r.mu.Unlock()
+			}
+		}()
 	case "cancel":
 		r.out.Linef("op cancel %d", op.a)
 		x := r.prod(op.a)
@@ -176,11 +232,15 @@ func (r *vQRun) apply(op vQOp) {
 			r.cons[op.a] = x
 		}
 		x.started, x.blocked = true, true
+		r.seq++
+		x.parkAt = r.seq
 		go func() {
 			id, done, ok := r.readFn()
 			r.mu.Lock()
 			x.blocked = false
 			if ok {
+				r.gotSeq++
+				x.gotAt, x.fresh = r.gotSeq, true
 				x.last = fmt.Sprintf("i%d", id)
 				r.dones[id] = done
 				r.seen[id] = true
@@ -228,6 +288,8 @@ func TestVerifC02Queue(t *testing.T) {
 	out := vOpen(t)
 	defer out.Close()
 	out.Linef("model c02-queue 1")
+	// one P: the Offers of a burst run back to back before any consumer they wake gets to run
+	defer runtime.GOMAXPROCS(runtime.GOMAXPROCS(1))
 	n := vN(1500)
 	// One bubble for all cases: blockingDonePool is a process-wide sync.Pool, and a channel made in one
 	// bubble must not be used from another. The hang watchdog lives outside the bubble (real time).
@@ -305,6 +367,7 @@ func vQueueCase(out *vOut, c int, persistent bool, mk func(out *vOut, capacity i
 	nCons := 1 + rnd.IntN(3)
 	maxProd := 3 + rnd.IntN(8)
 	nextP := 0
+	nBursts := 0
 	everBlocked := false
 	blockedProds := func() []int {
 		r.mu.Lock()
@@ -353,35 +416,59 @@ func vQueueCase(out *vOut, c int, persistent bool, mk func(out *vOut, capacity i
 		var cands []vQOp
 		if nextP < maxProd {
 			for w := 0; w < 4; w++ {
-				cands = append(cands, vQOp{"offer", nextP, 0})
+				cands = append(cands, vQOp{kind: "offer", a: nextP, b: 0})
 			}
 		}
 		for _, p := range bp {
 			if !r.prods[p].canc {
-				cands = append(cands, vQOp{"cancel", p, 0})
+				cands = append(cands, vQOp{kind: "cancel", a: p, b: 0})
 			}
 		}
 		for _, cc := range fc {
-			cands = append(cands, vQOp{"read", cc, 0}, vQOp{"read", cc, 0})
+			cands = append(cands, vQOp{kind: "read", a: cc, b: 0}, vQOp{kind: "read", a: cc, b: 0})
 		}
 		for _, id := range r.handed {
-			cands = append(cands, vQOp{"done", id, 0}, vQOp{"done", id, 0}, vQOp{"done", id, 0})
+			cands = append(cands, vQOp{kind: "done", a: id, b: 0}, vQOp{kind: "done", a: id, b: 0}, vQOp{kind: "done", a: id, b: 0})
 		}
 		if !r.shut && !persistent && rnd.IntN(40) == 0 {
-			cands = append(cands, vQOp{"shutdown", 0, 0})
+			cands = append(cands, vQOp{kind: "shutdown", a: 0, b: 0})
+		}
+		if !wfr && nextP+3 <= maxProd {
+			parked := nCons - len(fc)
+			for w := 0; w < 1+2*parked; w++ {
+				cands = append(cands, vQOp{kind: "burst"})
+			}
 		}
 		if len(cands) == 0 {
 			break
 		}
 		op := cands[rnd.IntN(len(cands))]
 		switch op.kind {
+		case "burst":
+			// 2-3 requests that all fit, so that no Offer of the burst can block
+			free := capacity - r.sizeFn()
+			k := 2 + rnd.IntN(2)
+			for i := 0; i < k && free >= 1; i++ {
+				el := int64(1)
+				if !reqSized && free > int64(k-i) {
+					el = 1 + int64(rnd.IntN(int(free-int64(k-i))))
+				}
+				free -= el
+				op.burst = append(op.burst, vQBurst{nextP, el})
+				nextP++
+			}
+			if len(op.burst) < 2 {
+				nextP -= len(op.burst)
+				continue
+			}
+			nBursts++
 		case "offer":
 			op.b = genSize()
 			if reqSized {
 				op.b = 1 // what the requests sizer reports, whatever the payload
 			}
 			if rnd.IntN(12) == 0 {
-				r.apply(vQOp{"cancel", nextP, 0}) // context already ended when Offer is called
+				r.apply(vQOp{kind: "cancel", a: nextP, b: 0}) // context already ended when Offer is called
 			}
 			nextP++
 		case "done":
@@ -395,7 +482,7 @@ func vQueueCase(out *vOut, c int, persistent bool, mk func(out *vOut, capacity i
 	// finishing phase: drain so that every accepted request finishes, then stop
 	for k := 0; k < 400; k++ {
 		if len(r.handed) > 0 {
-			r.apply(vQOp{"done", r.handed[0], int64(rnd.IntN(3))})
+			r.apply(vQOp{kind: "done", a: r.handed[0], b: int64(rnd.IntN(3))})
 			continue
 		}
 		if len(blockedProds()) > 0 {
@@ -404,22 +491,22 @@ func vQueueCase(out *vOut, c int, persistent bool, mk func(out *vOut, capacity i
 		has := len(r.qidsFn()) > 0
 		fc := freeCons()
 		if has && len(fc) > 0 {
-			r.apply(vQOp{"read", fc[0], 0})
+			r.apply(vQOp{kind: "read", a: fc[0], b: 0})
 			continue
 		}
 		if bp := blockedProds(); len(bp) > 0 && !has {
 			// nothing queued, nothing in flight: whoever is still blocked waits for a result that cannot come
 			// (its context is what ends the wait) or is a lost wake-up, which the oracle flags
-			r.apply(vQOp{"cancel", bp[0], 0})
+			r.apply(vQOp{kind: "cancel", a: bp[0], b: 0})
 			continue
 		}
 		break
 	}
 	if !r.shut {
-		r.apply(vQOp{"shutdown", 0, 0})
+		r.apply(vQOp{kind: "shutdown", a: 0, b: 0})
 	}
 	if fc := freeCons(); len(fc) > 0 {
-		r.apply(vQOp{"read", fc[0], 0})
+		r.apply(vQOp{kind: "read", a: fc[0], b: 0})
 	}
 	for _, x := range r.prods {
 		x.cancel()
@@ -430,6 +517,7 @@ func vQueueCase(out *vOut, c int, persistent bool, mk func(out *vOut, capacity i
 	}
 	out.Linef("stat queue_cases_block%d_wfr%d_persistent%d 1", vB(block), vB(wfr), vB(persistent))
 	out.Linef("stat queue_producers %d", nextP)
+	out.Linef("stat queue_bursts %d", nBursts)
 	out.Linef("stat queue_ever_blocked %d", vB(everBlocked))
 	out.Linef("stat queue_blocked_for_space %d", vB(r.spaceBlk))
 	out.Linef("end")
